@@ -451,6 +451,10 @@ def run(res, tier):
             try:
                 r = thread_case(rng, name, mk, meta)
             except Exception as e:  # noqa
+                import traceback
+                if '/cvxopt/' in traceback.format_exc():
+                    dist['solver_failures'] = dist.get('solver_failures', 0) + 1
+                    continue
                 r = dict(what=f'thread test raised {type(e).__name__}: {e}', estimator=name)
             if r:
                 bad.append(r)
